@@ -193,6 +193,34 @@ func VerifyDataDirChecksums(dataDir string) (*DataDirChecksumResult, error) {
 		scanDir(filepath.Join(baseDir, entry.Name()))
 	}
 	
+	// Tablespaces: pg_tblspc/<spcoid>/PG_<version>_<catversion>/<dboid>/<relation files>
+	// (pg_tblspc/<spcoid> is a symbolic link to the tablespace location; os.ReadDir follows it)
+	tblspcDir := filepath.Join(dataDir, "pg_tblspc")
+	spcs, _ := os.ReadDir(tblspcDir)
+	for _, spc := range spcs {
+		if _, err := strconv.ParseUint(spc.Name(), 10, 32); err != nil {
+			continue
+		}
+		spcPath := filepath.Join(tblspcDir, spc.Name())
+		vers, _ := os.ReadDir(spcPath)
+		for _, ver := range vers {
+			if !ver.IsDir() || !strings.HasPrefix(ver.Name(), "PG_") {
+				continue
+			}
+			verPath := filepath.Join(spcPath, ver.Name())
+			dbs, _ := os.ReadDir(verPath)
+			for _, db := range dbs {
+				if !db.IsDir() {
+					continue
+				}
+				if _, err := strconv.ParseUint(db.Name(), 10, 32); err != nil {
+					continue
+				}
+				scanDir(filepath.Join(verPath, db.Name()))
+			}
+		}
+	}
+	
 	return result, nil
 }
 
